@@ -26,4 +26,30 @@ Rows(log, s, m2, u) ==
 \* extract_*_list: indices of the objects whose log shows s at all the given times
 Extract(logs, s, times) ==
   { i \in DOMAIN logs : \A t \in ToSet(times): t + 1 <= Len(logs[i]) /\ logs[i][t + 1] = s }
+\* ---- structural graph (get_networkx_graph) ----------------------------------------------------
+\* Nodes are named by kind and index ("T1", "C2", "M1" team, "P1" workplace, "W1", "F1").  The
+\* harness builds every model with team 1 as parent of the other teams and workplace 1 as parent
+\* of the other workplaces (harness/build.py), which the graph shows as edges.
+Nm(kind, i) == kind \o ToString(i)
+GraphNodes(cfg, viewW, viewF) ==
+  { Nm("T", t) : t \in Tasks(cfg) } \cup { Nm("C", c) : c \in DOMAIN cfg.comps }
+  \cup { Nm("M", j) : j \in 1..cfg.nTeam } \cup { Nm("P", j) : j \in DOMAIN cfg.wps }
+  \cup (IF viewW THEN { Nm("W", w) : w \in DOMAIN cfg.workers } ELSE {})
+  \cup (IF viewF THEN { Nm("F", f) : f \in DOMAIN cfg.facs } ELSE {})
+GraphEdges(cfg, viewW, viewF) ==
+  { <<Nm("T", d[1]), Nm("T", d[2])>> : d \in ToSet(cfg.deps) }
+  \cup UNION { { <<Nm("C", c), Nm("C", ch)>> : ch \in ToSet(cfg.comps[c].children) } : c \in DOMAIN cfg.comps }
+  \cup UNION { { <<Nm("C", c), Nm("T", t)>> : t \in TasksOf(cfg, c) } : c \in DOMAIN cfg.comps }
+  \cup UNION { { <<Nm("M", j), Nm("T", t)>> : j \in ToSet(cfg.tasks[t].teams) } : t \in Tasks(cfg) }
+  \cup UNION { { <<Nm("P", j), Nm("T", t)>> : j \in ToSet(cfg.tasks[t].wps) } : t \in Tasks(cfg) }
+  \cup { <<Nm("M", 1), Nm("M", j)>> : j \in 2..cfg.nTeam }
+  \cup { <<Nm("P", 1), Nm("P", j)>> : j \in 2..Len(cfg.wps) }
+  \cup (IF viewW THEN { <<Nm("M", cfg.workers[w].team), Nm("W", w)>> : w \in DOMAIN cfg.workers } ELSE {})
+  \cup (IF viewF THEN { <<Nm("P", cfg.facs[f].wp), Nm("F", f)>> : f \in DOMAIN cfg.facs } ELSE {})
+\* obs = the recorded graph: sorted sequences of node names and of <<from, to>> pairs
+GraphConforms(cfg, viewW, viewF, obs) ==
+  /\ ToSet(obs.nodes) = GraphNodes(cfg, viewW, viewF)
+  /\ Len(obs.nodes) = Cardinality(GraphNodes(cfg, viewW, viewF))
+  /\ ToSet(obs.edges) = GraphEdges(cfg, viewW, viewF)
+  /\ Len(obs.edges) = Cardinality(GraphEdges(cfg, viewW, viewF))
 =============================================================================
